@@ -55,6 +55,24 @@ def named(f, local, through=("Clone::clone", "Deref::deref", "into_iter", "IntoI
     return out
 
 
+def variant_fields(f, local):
+    """(variant, field index) pairs of the enum payload fields a local is moved out of (through Box
+    derefs and plain moves): which operand of the matched node this is, independent of its name."""
+    out = set()
+    for k, st in f.backward_sources(local, through_calls=("Deref::deref", "Clone::clone"))[1]:
+        if k != "stmt":
+            continue
+        for p in st.src_places():
+            v = None
+            for pr in p.proj:
+                if pr[0] == "v":
+                    v = pr[1]
+                elif pr[0] == "f" and v is not None:
+                    out.add((v, pr[1]))
+                    v = None
+    return out
+
+
 def label_sources(f, local, through=("Clone::clone", "Deref::deref")):
     """blocks of the anonymous_label() calls a label operand derives from"""
     out = set()
@@ -101,6 +119,7 @@ def events(F, f, region=None):
             labels = set()
             lsrc = set()
             exit_reason = None
+            payload = None
             if a.place is not None:
                 for k, s in f.backward_sources(a.place.local, through_calls=())[1]:
                     if k == "stmt" and s.rv_kind() == "agg":
@@ -114,11 +133,20 @@ def events(F, f, region=None):
                                     lsrc |= label_sources(f, o.place.local)
                         if adt.endswith("ExitReason"):
                             exit_reason = s.rv[1].get("variant")
-            evs.append(Ev("emit", c, variant=var, labels=labels, lsrc=lsrc, exit_reason=exit_reason))
+                        if adt.endswith("data::ConstValue"):
+                            ops = s.operands()
+                            payload = ("ConstValue", s.rv[1].get("variant"), ops[0].const.get("dbg") if ops and ops[0].const is not None else None)
+                        if adt.endswith("instructions::WrapType"):
+                            payload = ("WrapType", s.rv[1].get("variant"), None)
+                    if k == "stmt" and s.rv_kind() == "use":
+                        o = Operand(s.rv[1])
+                        if o.const is not None and "ConstValue::" in str(o.const.get("dbg")):
+                            payload = ("ConstValue", str(o.const.get("dbg")).split("ConstValue::")[-1], None)
+            evs.append(Ev("emit", c, variant=var, labels=labels, lsrc=lsrc, exit_reason=exit_reason, payload=payload))
         elif c.name in COMPILE_FNS:
             a = c.args[1] if len(c.args) > 1 else None
             names = named(f, a.place.local) if a is not None and a.place is not None else set()
-            evs.append(Ev("compile", c, names=names, fn=c.name))
+            evs.append(Ev("compile", c, names=names, fn=c.name, fields=variant_fields(f, a.place.local) if a is not None and a.place is not None else set()))
         elif c.name == "define_label":
             a = c.args[1]
             evs.append(Ev("label", c, labels=named(f, a.place.local) if a.place is not None else set(),
@@ -199,3 +227,100 @@ def diamond(f, evs, cond_names, then_names, else_names, rep, key, site, cut, laz
     if good:
         rep.ok("K9 emission template", key + "|operands", site, "cond before Branch; lazy operands compiled once, each inside one region")
     return good
+
+
+def bool_binding(f, local, depth=8):
+    """(name, negated) when `local` is a copy / logical negation of a named bool binding."""
+    neg = False
+    l = local
+    for _ in range(depth):
+        nm = f.local_name(l)
+        if nm and nm != "self":
+            return nm, neg, l
+        ds = [s for k, s in f.defs().get(l, []) if k == "stmt"]
+        if len(ds) != 1:
+            return None
+        s = ds[0]
+        if s.rv_kind() == "use":
+            o = Operand(s.rv[1])
+        elif s.rv_kind() == "un" and s.rv[1] == "Not":
+            o = Operand(s.rv[2])
+            neg = not neg
+        else:
+            return None
+        if o.place is None:
+            return None
+        # deref of a reference to the binding is fine
+        l = o.place.local
+    return None
+
+
+def templates(F, f, start, region, cut, limit=4096, field_conds=False):
+    """All distinct linear emission templates of the arm entered at `start`: the sequences of
+    events along each normal (non-error, non-unwind) path through `region`, with the values of the
+    named bool bindings the path's branches imply. Returns None when the arm contains a loop."""
+    evs = {e.bb: e for e in events(F, f, region)}
+    out = {}
+    count = [0]
+    cut = set(cut)
+    dsw = {}
+    for b, arms, other, st in f.discr_switches(None):
+        nm = named(f, st.rv[1]["l"]) if isinstance(st.rv[1], dict) else set()
+        if len(nm) == 1:
+            dsw[b] = (sorted(nm)[0], arms)
+
+    def walk(bb, path, conds, onpath):
+        if count[0] > limit:
+            return False
+        if bb not in region:
+            count[0] += 1
+            key = (tuple(sorted(conds.items())), tuple(e.bb for e in path))
+            out[key] = (dict(conds), list(path))
+            return True
+        if bb in onpath:
+            return False
+        onpath = onpath | {bb}
+        if bb in evs:
+            path = path + [evs[bb]]
+        succs = [s for s in f.succ(bb) if (bb, s) not in cut and not f.is_cleanup(s) and not f.is_unreachable_block(s)]
+        sw = f.switch_on(bb)
+        bind = None
+        if sw and sw[0].place is not None and not sw[0].place.proj:
+            bind = bool_binding(f, sw[0].place.local)
+        for s in succs:
+            c2 = conds
+            if bind:
+                name, neg, bl = bind
+                if field_conds:
+                    vf = variant_fields(f, bl)
+                    if len(vf) == 1:
+                        name = sorted(vf)[0]
+                val = None
+                for v, t in sw[1].items():
+                    if t == s:
+                        val = bool(int(v))
+                if val is None and s == sw[2]:
+                    val = True if set(int(v) for v in sw[1]) == {0} else None
+                if val is not None:
+                    bv = val != neg
+                    if name in conds and conds[name] != bv:
+                        continue
+                    c2 = dict(conds)
+                    c2[name] = bv
+            if bb in dsw and bb != start_switch:
+                name, arms = dsw[bb]
+                vs = [v for v, t in arms.items() if t == s]
+                if len(vs) == 1:
+                    k = "discr:" + name
+                    if k in conds and conds[k] != vs[0]:
+                        continue
+                    c2 = dict(conds)
+                    c2[k] = vs[0]
+            if not walk(s, path, c2, onpath):
+                return False
+        return True
+
+    start_switch = None
+    if not walk(start, [], {}, frozenset()):
+        return None
+    return list(out.values())
